@@ -6,6 +6,8 @@ import (
 	"fmt"
 	"os"
 	"path/filepath"
+	"runtime/debug"
+	"runtime/pprof"
 	"sort"
 	"strconv"
 	"time"
@@ -122,10 +124,19 @@ func main() {
 			budget = time.Duration(n) * time.Second
 		}
 	}
+	if pf := os.Getenv("VERIF_CPUPROFILE"); pf != "" {
+		f, _ := os.Create(pf)
+		_ = pprof.StartCPUProfile(f)
+		defer pprof.StopCPUProfile()
+	}
+	if false {
+		debug.SetGCPercent(200)
+	}
 	c := &Ctx{ID: id, Tier: tier, Seed: seed, Start: time.Now(), KF: LoadKnownFindings()}
 	c.Deadline = c.Start.Add(budget)
 	res := fn(c)
 	code := finish(c, res)
+	pprof.StopCPUProfile()
 	os.Exit(code)
 }
 
